@@ -20,7 +20,7 @@ TRACE = "OrderedStoreTrace"
 CFG_STRICT = "OrderedStoreTrace.cfg"
 CFG_TOLERANT = "OrderedStoreTraceTolerant.cfg"
 
-KEEP = ("ev", "k", "k2", "v", "id", "first", "r", "rk", "rid", "rv", "seq", "cnt", "ck", "cid", "tc", "aff", "sane")
+KEEP = ("ev", "k", "k2", "v", "id", "first", "r", "rk", "rid", "rv", "seq", "cnt", "ck", "cid", "tc", "aff", "trk", "sane")
 
 ALL_SLOTS = [2, 3, 4, 5, 6, 8, 24]
 
